@@ -202,6 +202,15 @@ impl Checker {
                 format!("restart from the journal panicked at {}: {}", p.location(), p.message),
                 step,
             );
+            // a server that cannot start any more is a C09 matter as well
+            fnd(
+                &mut out,
+                "C09",
+                "panic",
+                p.location(),
+                format!("the server panicked while restarting from its journal at {}: {}", p.location(), p.message),
+                step,
+            );
             self.push_findings(out);
             return;
         }
